@@ -107,7 +107,7 @@ impl Live {
         }
     }
 
-    fn track(&mut self, f: &Function) {
+    pub fn track(&mut self, f: &Function) {
         if matches!(f, Function::Ris) {
             self.ris_count += 1;
         }
@@ -116,7 +116,7 @@ impl Live {
         });
     }
 
-    fn resync(&mut self) {
+    pub fn resync(&mut self) {
         let c = self.vt.cursor();
         let app = self.vt.cursor_key_app_mode();
         harness(|| self.hid.adopt_cursor(c.col, c.row, c.visible, app));
